@@ -529,6 +529,13 @@ def register(M):
     reg('HashMap', None, 'get_mut', hm_get)
     reg('HashMap', None, 'contains_key', lambda m, a, k: hm_get(m, a, k).var == 1)
 
+    def hm_index(m, a, k):
+        o = hm_get(m, a, k)
+        if o.var == 0:
+            raise Panic('HashMap index: key not found')
+        return o.fields[0]
+    reg('HashMap', 'Index', 'index', hm_index)
+
     def hm_insert(m, a, k):
         r = innermost_ref(m, a[0])
         mp = val(m, r)
